@@ -1,6 +1,6 @@
 // Hook H10 (ipa-core/src/query/runner/mod.rs): `runner::hybrid` (Query::execute) is private.
 
-#[cfg(not(feature = "shuttle"))]
+#[cfg(all(not(feature = "shuttle"), feature = "descriptive-gate"))]
 mod c11 {
     include!(concat!(env!("IPA_VERIF_DIR"), "/c11.rs"));
 }
